@@ -2272,7 +2272,7 @@ inline GPString gp_capitalize99(const size_t a_size, const void* a, const void* 
 }
 #define GP_CAPITALIZE1(STR)           gp_str_capitalize(STR, "")
 #define GP_CAPITALIZE99_2(A, B)       gp_capitalize99(GP_SIZEOF_TYPEOF(*(A)), A, B, #B)
-#define GP_CAPITALIZE3(ALC, STR, LOC) gp_capitalize_full_new(GP_ALC(ALC), GP_STR_IN(STR), LOC)
+#define GP_CAPITALIZE3(ALC, STR, LOC) gp_capitalize_locale_new(GP_ALC(ALC), GP_STR_IN(STR), LOC)
 #define GP_CAPITALIZE99(...) GP_OVERLOAD3(__VA_ARGS__, GP_CAPITALIZE3, GP_CAPITALIZE99_2, GP_CAPITALIZE1)(__VA_ARGS__)
 
 inline size_t gp_find_first99(const GPString haystack, GPStrIn needle, const size_t start)
